@@ -24,7 +24,7 @@ var (
 	simrtPath = flag.String("simrt", "github.com/douban/gobeansdb/zzsimrt", "import path of the runtime")
 	yieldPkgs = flag.String("yieldpkgs", "store", "packages that get a Yield() at function entries")
 	verbose   = flag.Bool("v", false, "verbose")
-	stmtFiles = flag.String("stmtyield", "store/datachunk.go,store/data.go,store/bucket.go,store/hint.go,store/gc.go,store/hstore.go,store/collision.go", "files whose function bodies get a YieldStmt() before every statement")
+	stmtFiles = flag.String("stmtyield", "store/datachunk.go,store/data.go,store/bucket.go,store/hint.go,store/gc.go,store/hstore.go,store/collision.go,memcache/token.go,memcache/server.go", "files whose function bodies get a YieldStmt() before every statement")
 )
 
 func fatalf(f string, a ...interface{}) {
